@@ -8,7 +8,7 @@
 EXTENDS Integers, FiniteSets, Sequences, TLC, Json
 CONSTANTS MaxFeatures
 Features == {"DISGAS", "VAPOIL", "PVTO", "PVTG", "FAMILY2", "POLYMER", "PLYSHLOG", "PLYVISC", "FAULTS", "MULTFLT", "NNC", "MULTREGT",
-             "THPRES", "RSVD", "TRACER", "ROCKTAB", "SATNUM", "PVTNUM", "WELLS", "GROUPS", "UDQ", "ACTIONX", "WTEST", "MSW", "MSWBR", "VFP", "GINJ", "SUMMARY_ALL"}
+             "THPRES", "RSVD", "TRACER", "ROCKTAB", "SATNUM", "PVTNUM", "WELLS", "GROUPS", "UDQ", "ACTIONX", "WTEST", "MSW", "MSWBR", "VFP", "GINJ", "SUMMARY_ALL", "RPT"}
 Requires(f) == CASE f = "PVTO" -> {"DISGAS"} [] f = "PVTG" -> {"VAPOIL"} [] f = "RSVD" -> {"DISGAS", "PVTO"}
                  [] f = "PLYSHLOG" -> {"POLYMER"} [] f = "PLYVISC" -> {"POLYMER"} [] f = "MULTFLT" -> {"FAULTS"}
                  [] f \in {"GROUPS", "UDQ", "ACTIONX", "WTEST", "MSW", "VFP", "GINJ"} -> {"WELLS"}
